@@ -4,7 +4,7 @@
     bijection lemmas, so these statements have no abstract premises left. *)
 From Coq Require Import ZArith List Bool Lia ZifyBool.
 From NS Require Import Gen.G09 Model.OneHot Model.EncDec Model.Lookback Model.NotePerfEnc Model.EncInst
-  Proofs.OneHot Proofs.EncDec Proofs.Lookback.
+  Proofs.OneHot Proofs.EncDec Proofs.Lookback Proofs.LookbackInput.
 Import ListNotations.
 Local Open Scope Z_scope.
 Ltac Zify.zify_post_hook ::= Z.to_euclidean_division_equations.
@@ -55,7 +55,7 @@ Section Melody.
   Proof.
     intros Hp Ha Hv.
     exact (lookback_decode_label Z Z.eqb (mel_num_classes mn mx) (mel_encode mn mx) (mel_dec mn)
-             MELODY_NO_EVENT one_step ds Zeqb_iff (fun e => mel_event_ok mn mx e = true) (mel_enc_ok mn mx cfg)
+             MELODY_NO_EVENT ds Zeqb_iff (fun e => mel_event_ok mn mx e = true) (mel_enc_ok mn mx cfg)
              (pos_dists_Forall ds dpos) es p a Hp Ha Hv).
   Qed.
 
@@ -66,8 +66,8 @@ Section Melody.
   Proof.
     intros Hv Henc.
     exact (lookback_roundtrip Z Z.eqb (mel_num_classes mn mx) (mel_encode mn mx) (mel_dec mn)
-             MELODY_NO_EVENT one_step ds bits Zeqb_iff (fun e => mel_event_ok mn mx e = true)
-             (mel_enc_ok mn mx cfg) (pos_dists_Forall ds dpos) es ins labs (forallb_Forall _ _ Hv) Henc).
+             MELODY_NO_EVENT ds Zeqb_iff (fun e => mel_event_ok mn mx e = true)
+             (mel_enc_ok mn mx cfg) (pos_dists_Forall ds dpos) one_step bits es ins labs (forallb_Forall _ _ Hv) Henc).
   Qed.
 
   Theorem lookback_melody_generation_total ls evs :
@@ -80,8 +80,8 @@ Section Melody.
     assert (Forall (fun l => 0 <= l < lb_num_classes (mel_num_classes mn mx) ds) ls) as Hl'.
     { apply forallb_Forall in Hl. eapply Forall_impl; [|exact Hl]. intros a0 Ha0. cbn beta in Ha0. unfold lb_num_classes, lb_k. clear - Ha0. lia. }
     destruct (lookback_generation_total Z Z.eqb (mel_num_classes mn mx) (mel_encode mn mx) (mel_dec mn)
-                MELODY_NO_EVENT one_step ds Zeqb_iff (fun e => mel_event_ok mn mx e = true)
-                (mel_enc_ok mn mx cfg) (pos_dists_Forall ds dpos) ls evs
+                MELODY_NO_EVENT ds Zeqb_iff (fun e => mel_event_ok mn mx e = true)
+                (mel_enc_ok mn mx cfg) (pos_dists_Forall ds dpos) one_step ls evs
                 (fun c _ => mel_dec_total mn c) Hl') as [H1 (g & Hg & Hlen & Hsteps)].
     split; [exact H1|].
     cbn [ed_num_steps lb_mel lb]. rewrite Hsteps. f_equal.
@@ -89,6 +89,36 @@ Section Melody.
     { induction l as [|x l IH]; [reflexivity|]. cbn [map zsum fold_right]. unfold zsum in IH. rewrite IH.
       rewrite zlen_cons. reflexivity. }
     rewrite Hz. unfold zlen. lia.
+  Qed.
+
+  (* the input vector of the lookback encoder over the melody one-hot: exact layout, input_size entries *)
+  Theorem lookback_melody_input_shape es p a :
+    0 <= bits -> 0 <= p -> nth_error es (Z.to_nat p) = Some a -> forallb (mel_event_ok mn mx) es = true ->
+    exists c cs fs v,
+      ed_input (lb_mel mn mx ds bits) es p = Some v /\
+      v = onehot (mel_num_classes mn mx) c ++ concat (map (onehot (mel_num_classes mn mx)) cs) ++
+          map (counter_bit (p + 1)) (EncDec.zrange bits) ++ map b2z fs /\
+      zlen v = ed_input_size (lb_mel mn mx ds bits) /\
+      mel_encode mn mx a = Some c /\ zlen cs = zlen ds /\ zlen fs = zlen ds /\
+      Forall is_one_hot (onehot (mel_num_classes mn mx) c :: map (onehot (mel_num_classes mn mx)) cs) /\
+      Forall2 (fun d f => f = true <-> lb_match Z es p d) ds fs.
+  Proof.
+    intros Hb Hp Ha Hv.
+    assert (Hn : 0 <= mel_num_classes mn mx).
+    { unfold mel_cfg_ok, mel_num_classes, NUM_SPECIAL_MELODY_EVENTS in *. lia. }
+    assert (Hok : forall e, mel_event_ok mn mx e = true ->
+                  exists c, mel_encode mn mx e = Some c /\ 0 <= c < mel_num_classes mn mx).
+    { intros e He. destruct (mel_enc_ok mn mx cfg e He) as (c & H1 & H2 & _). eauto. }
+    assert (Hd : mel_event_ok mn mx MELODY_NO_EVENT = true) by reflexivity.
+    destruct (lookback_input_shape Z Z.eqb (mel_num_classes mn mx) (mel_encode mn mx) MELODY_NO_EVENT
+                Zeqb_iff Hn (fun e => mel_event_ok mn mx e = true) Hok Hd ds bits
+                (pos_dists_Forall ds dpos) Hb es p a Hp Ha (forallb_Forall _ _ Hv))
+      as (c & cs & fs & v & H1 & H2 & H3 & H4 & _ & H6 & H7 & H8 & _).
+    exists c, cs, fs, v. cbn [ed_input ed_input_size lb_mel lb].
+    split; [exact H1|]. split; [exact H2|]. split; [exact H3|]. split; [exact H4|].
+    split; [unfold zlen; f_equal; symmetry; eapply Forall2_len; eauto|].
+    split; [unfold zlen; f_equal; symmetry; eapply Forall2_len; eauto|].
+    split; [exact H8|exact H7].
   Qed.
 
   Theorem onehot_melody_decode_label es p a :
@@ -100,16 +130,18 @@ Section Melody.
                 ed_input (ohi_mel mn mx) es p = Some [l] /\ ed_label (ohi_mel mn mx) es p = Some l.
   Proof.
     intros Hp Ha Hv.
-    destruct (onehot_decode_label Z (mel_num_classes mn mx) (mel_encode mn mx) (mel_dec mn) one_step
+    destruct (onehot_decode_label Z (mel_num_classes mn mx) (mel_encode mn mx) (mel_dec mn)
                 (fun e => mel_event_ok mn mx e = true) (mel_enc_ok mn mx cfg) es p a Ha Hp Hv) as (l & Hl & Hr & Hd).
-    destruct (onehot_input_shape Z (mel_num_classes mn mx) (mel_encode mn mx) (mel_dec mn) one_step
+    destruct (onehot_input_shape Z (mel_num_classes mn mx) (mel_encode mn mx) (mel_dec mn)
                 (fun e => mel_event_ok mn mx e = true) (mel_enc_ok mn mx cfg) es p a Ha Hp Hv)
       as (v & c & Hi & Hc & Hlen & Hoh & Hnth).
-    destruct (onehot_index_input Z (mel_num_classes mn mx) (mel_encode mn mx) (mel_dec mn) one_step
+    destruct (onehot_index_input Z (mel_num_classes mn mx) (mel_encode mn mx) (mel_dec mn)
                 (fun e => mel_event_ok mn mx e = true) (mel_enc_ok mn mx cfg) es p a Ha Hp Hv) as (c' & Hi' & Hl' & _).
     assert (c = l /\ c' = l) as [-> ->].
     { unfold ohs_label in Hl, Hl'. rewrite py_nth_pos, Ha in Hl, Hl' by lia. cbn in Hl, Hl'. split; congruence. }
-    exists l, v. cbn [ed_label ed_decode ed_input ed_input_size ohs_mel ohi_mel ohs ohi]. repeat split; auto; lia.
+    exists l, v. cbn [ed_label ed_decode ed_input ed_input_size ohs_mel ohi_mel ohs ohi].
+    split; [exact Hl|]. split; [exact Hr|]. split; [exact Hd|]. split; [exact Hi|]. split; [exact Hlen|].
+    split; [exact Hoh|]. split; [exact Hnth|]. split; [exact Hi'|exact Hl'].
   Qed.
 End Melody.
 
@@ -124,11 +156,14 @@ Lemma perf_event_ok_valid nb ms minp maxp e :
   perf_event_ok nb ms minp maxp e = true -> perf_valid nb ms minp maxp (fst e) (snd e).
 Proof.
   destruct e as [ty v]. unfold perf_event_ok, perf_valid. cbn [fst snd]. intros H.
-  destruct (ty =? EV_NOTE_ON) eqn:?; [left; lia|].
-  destruct (ty =? EV_NOTE_OFF) eqn:?; [right; left; lia|].
-  destruct (ty =? EV_TIME_SHIFT) eqn:?; [right; right; left; lia|].
-  destruct (ty =? EV_VELOCITY) eqn:?; [right; right; right; lia|].
-  cbn in H. discriminate.
+  apply orb_true_iff in H. destruct H as [H|H]; [apply orb_true_iff in H; destruct H as [H|H]|].
+  - apply andb_true_iff in H. destruct H as [H H3]. apply andb_true_iff in H. destruct H as [H H2].
+    apply orb_true_iff in H. destruct H as [H|H]; apply Z.eqb_eq in H; [left|right; left]; split; auto; lia.
+  - apply andb_true_iff in H. destruct H as [H H3]. apply andb_true_iff in H. destruct H as [H H2].
+    apply Z.eqb_eq in H. right; right; left. split; auto; lia.
+  - apply andb_true_iff in H. destruct H as [H H4]. apply andb_true_iff in H. destruct H as [H H3].
+    apply andb_true_iff in H. destruct H as [H H2].
+    apply Z.eqb_eq in H. right; right; right. split; auto; lia.
 Qed.
 
 Lemma pe_eqb_iff a b : pe_eqb a b = true <-> a = b.
@@ -172,7 +207,7 @@ Section Perf.
   Proof.
     intros Hp Ha Hv.
     exact (lookback_decode_label pevent pe_eqb (oh_num_classes rs) (pe_enc rs) (pe_dec rs)
-             (EV_TIME_SHIFT, ms) perf_steps ds pe_eqb_iff (fun e => perf_event_ok nb ms minp maxp e = true) pe_enc_ok
+             (EV_TIME_SHIFT, ms) ds pe_eqb_iff (fun e => perf_event_ok nb ms minp maxp e = true) pe_enc_ok
              (pos_dists_Forall ds dpos) es p a Hp Ha Hv).
   Qed.
 
@@ -183,8 +218,8 @@ Section Perf.
   Proof.
     intros Hv Henc.
     exact (lookback_roundtrip pevent pe_eqb (oh_num_classes rs) (pe_enc rs) (pe_dec rs)
-             (EV_TIME_SHIFT, ms) perf_steps ds bits pe_eqb_iff (fun e => perf_event_ok nb ms minp maxp e = true)
-             pe_enc_ok (pos_dists_Forall ds dpos) es ins labs (forallb_Forall _ _ Hv) Henc).
+             (EV_TIME_SHIFT, ms) ds pe_eqb_iff (fun e => perf_event_ok nb ms minp maxp e = true)
+             pe_enc_ok (pos_dists_Forall ds dpos) perf_steps bits es ins labs (forallb_Forall _ _ Hv) Henc).
   Qed.
 
   (* labels_to_num_steps = the time shifts of the generated events *)
@@ -198,8 +233,8 @@ Section Perf.
     assert (Forall (fun l => 0 <= l < lb_num_classes (oh_num_classes rs) ds) ls) as Hl'.
     { apply forallb_Forall in Hl. eapply Forall_impl; [|exact Hl]. intros a0 Ha0. cbn beta in Ha0. unfold lb_num_classes, lb_k. clear - Ha0. lia. }
     destruct (lookback_generation_total pevent pe_eqb (oh_num_classes rs) (pe_enc rs) (pe_dec rs)
-                (EV_TIME_SHIFT, ms) perf_steps ds pe_eqb_iff (fun e => perf_event_ok nb ms minp maxp e = true)
-                pe_enc_ok (pos_dists_Forall ds dpos) ls [] pe_dec_total Hl') as [_ H2].
+                (EV_TIME_SHIFT, ms) ds pe_eqb_iff (fun e => perf_event_ok nb ms minp maxp e = true)
+                pe_enc_ok (pos_dists_Forall ds dpos) perf_steps ls [] pe_dec_total Hl') as [_ H2].
     exact H2.
   Qed.
 End Perf.
@@ -209,7 +244,7 @@ Example lookback_instances_nonvacuous :
   forallb (mel_event_ok 48 84) [-2; -2; 60; -1; 60; -1; 60; 62; 60] = true /\
   (* labels of the docstring example: default before the first lookback, both lookbacks matching *)
   map (ed_label (lb_mel 48 84 [2; 4] 5) [-2; -2; 60; -1; 60; -1; 60; 62; 60]) [0; 1; 2; 3; 4; 5; 6; 7; 8]
-    = [Some 39; Some 39; Some 14; Some 1; Some 38; Some 38; Some 39; Some 16; Some 38] /\
+    = [Some 39; Some 39; Some 14; Some 1; Some 38; Some 38; Some 39; Some 16; Some 39] /\
   (exists ins labs, encode (lb_mel 48 84 [2; 4] 5) [-2; -2; 60; -1; 60; -1; 60; 62; 60] = Some (ins, labs) /\
      generate (ed_decode (lb_mel 48 84 [2; 4] 5)) labs [-2] = Some [-2; -2; 60; -1; 60; -1; 60; 62; 60]).
-Proof. vm_compute. repeat split. eexists _, _. split; reflexivity. Qed.
+Proof. vm_compute. repeat split. do 2 eexists. split; reflexivity. Qed.
